@@ -94,7 +94,7 @@ PROPS = {
                 "labels incl. separators/UTF-8 with shared symbols, 0-3 float samples, 0-2 integer/float native histograms, 0-2 exemplars) enters at "
                 "a drawn node; commits on all nodes are scheduler steps; in half of the runs pipe I/O is cut into short reads/writes, in half of the "
                 "runs 1-3 connection closes happen at drawn steps (client reconnects and resends). Oracle: every stored copy equals the description; "
-                "without connection faults the request succeeds and every node holds every series. distinct = distinct event-log hash.",
+                "without connection faults the request succeeds and every node holds every series. One run in forty first sends a request with more than 2^16 distinct symbols per replicated batch through the same process. distinct = distinct event-log hash.",
         "components": {"real": RW_REAL + ["pkg/receive/writecapnp (RemoteWriteClient, marshal, Request decode)", "pkg/receive CapNProtoServer/"
                                           "CapNProtoHandler/CapNProtoWriter", "capnproto.org/go/capnp/v3 rpc over net.Pipe"],
                        "stub": ["TSDB (recording appender)", "TCP (net.Pipe wrapped with short reads/writes and closes)", "clock (synctest)"]},
